@@ -374,22 +374,33 @@ def r7_register_keeps_tables(ck, cx, rule='R7'):
             annotate(p, heap=False)
             for i, ev in enumerate(p.ev):
                 whole = None      # (key text, value node) of a depth-1 write into the sub-function table
-                if ev.kind == 'assign' and isinstance(ev.a, ast.Subscript) and U(ev.a.value).endswith('__sub_lookup'):
-                    whole = (U(ev.a.slice), ev.node.value)
-                elif ev.kind == 'call' and isinstance(ev.node.func, ast.Attribute) and ev.node.func.attr == 'update' and U(ev.node.func.value).endswith('__sub_lookup') \
-                        and ev.node.args and isinstance(ev.node.args[0], ast.Dict) and ev.node.args[0].keys:
-                    whole = (U(ev.node.args[0].keys[0]), ev.node.args[0].values[0])
-                elif ev.kind == 'assign' and isinstance(ev.a, ast.Subscript) and isinstance(ev.a.value, ast.Subscript) and U(ev.a.value.value).endswith('__sub_lookup'):
+                # targets and receivers are looked at with locals replaced by what they stand for (`tables = self.__sub_lookup`)
+                tgt = (getattr(ev, '_subt', None) or ev.a) if ev.kind == 'assign' else None
+                call = (getattr(ev, '_sub', None) if isinstance(getattr(ev, '_sub', None), ast.Call) else ev.node) if ev.kind == 'call' else None
+                if tgt is not None and isinstance(tgt, ast.Subscript) and U(tgt.value).endswith('__sub_lookup'):
+                    whole = (U(tgt.slice), ev.node.value)
+                elif call is not None and isinstance(call.func, ast.Attribute) and call.func.attr == 'update' and U(call.func.value).endswith('__sub_lookup') \
+                        and call.args and isinstance(call.args[0], ast.Dict) and call.args[0].keys:
+                    whole = (U(call.args[0].keys[0]), call.args[0].values[0])
+                elif tgt is not None and isinstance(tgt, ast.Subscript) and isinstance(tgt.value, ast.Subscript) and U(tgt.value.value).endswith('__sub_lookup'):
                     n += 1      # one entry of the inner table: the intended form
-                elif ev.kind == 'call' and isinstance(ev.node.func, ast.Attribute) and ev.node.func.attr == 'setdefault' and U(ev.node.func.value).endswith('__sub_lookup'):
+                elif call is not None and isinstance(call.func, ast.Attribute) and call.func.attr == 'setdefault' and U(call.func.value).endswith('__sub_lookup'):
                     n += 1      # setdefault never replaces an existing inner table
                 if whole is None:
                     continue
                 n += 1
                 key, val = whole
-                absent = any(c.kind == 'cond' and key in U(c.node) and '__sub_lookup' in U(c.node) and
-                             ((' not in ' in U(c.node) and c.a is True) or (' in ' in U(c.node) and ' not in ' not in U(c.node) and c.a is False))
-                             for c in p.ev[:i])
+
+                def _absent(c):
+                    t, pol = (getattr(c, '_sub', None) or c.node), c.a
+                    while isinstance(t, ast.UnaryOp) and isinstance(t.op, ast.Not):
+                        t, pol = t.operand, (not pol if isinstance(pol, bool) else pol)
+                    if not (isinstance(t, ast.Compare) and len(t.ops) == 1 and isinstance(t.ops[0], (ast.In, ast.NotIn))):
+                        return False
+                    if key not in U(t.left) or not U(t.comparators[0]).endswith('__sub_lookup'):
+                        return False
+                    return (isinstance(t.ops[0], ast.NotIn) and pol is True) or (isinstance(t.ops[0], ast.In) and pol is False)
+                absent = any(c.kind == 'cond' and _absent(c) for c in p.ev[:i])
                 merges = any(isinstance(x, ast.Attribute) and x.attr.endswith('__sub_lookup') for x in ast.walk(val))
                 ck.ob(rule, f.qn, 'a whole sub-function table is written only for a function code that had none (or merged with the old one)', absent or merges,
                       detail='register-replaces-sub-table', loc=cx.floc(f, ev.node),
